@@ -23,6 +23,7 @@ import (
 	"path/filepath"
 	"regexp"
 	"sort"
+	"strconv"
 	"strings"
 
 	"github.com/vechain/thor/v2/builtin"
@@ -61,6 +62,9 @@ type preset struct {
 	ExitMaxTry     int    `json:"ExitMaxTry"`
 	EvictMaxTry    int    `json:"EvictMaxTry"`
 	DefaultMBP     uint64 `json:"DefaultMBP"`
+	// shape of the random histories (0 / nil = default)
+	NValMin, NValSpan int
+	MBPs              []uint64
 }
 
 var presets = map[string]preset{
@@ -69,8 +73,16 @@ var presets = map[string]preset{
 	"e4": {E: 4, LowP: 4, MedP: 8, HighP: 16, Cooldown: 8, EvictThreshold: 6, EvictInterval: 8, TP: 4, Hayabusa: 0, Unit: 25_000_000},
 	// eviction checks every epoch, threshold of 6 epochs: the early checks run at heights BELOW the threshold while
 	// validators are offline only briefly (an eviction there is premature; unsigned height arithmetic must not wrap)
-	"ev":   {E: 2, LowP: 2, MedP: 4, HighP: 8, Cooldown: 2, EvictThreshold: 12, EvictInterval: 2, TP: 0, Hayabusa: 0, Unit: 1_000_000},
-	"ev3":  {E: 3, LowP: 3, MedP: 6, HighP: 12, Cooldown: 3, EvictThreshold: 20, EvictInterval: 3, TP: 3, Hayabusa: 0, Unit: 25_000_000},
+	"ev":  {E: 2, LowP: 2, MedP: 4, HighP: 8, Cooldown: 2, EvictThreshold: 12, EvictInterval: 2, TP: 0, Hayabusa: 0, Unit: 1_000_000},
+	"ev3": {E: 3, LowP: 3, MedP: 6, HighP: 12, Cooldown: 3, EvictThreshold: 20, EvictInterval: 3, TP: 3, Hayabusa: 0, Unit: 25_000_000},
+	// the configuration of specs/staker/MCStakerExport.cfg: TLC-generated behaviours are replayed under it (-mode replay)
+	"mc": {E: 2, LowP: 2, MedP: 4, HighP: 4, Cooldown: 2, EvictThreshold: 1, EvictInterval: 4, TP: 0, Hayabusa: 0, Unit: 25_000_000},
+	// HAYABUSA and the transition period are NOT multiples of the epoch (transition blocks are the common multiples),
+	// the shortest staking period is two epochs, the cooldown is not a whole number of epochs
+	"mis": {E: 3, LowP: 6, MedP: 9, HighP: 15, Cooldown: 4, EvictThreshold: 5, EvictInterval: 6, TP: 4, Hayabusa: 2, Unit: 1_000_000},
+	// leader groups of 8-16 members out of 18-26 candidates
+	"big": {E: 2, LowP: 2, MedP: 4, HighP: 8, Cooldown: 2, EvictThreshold: 3, EvictInterval: 4, TP: 0, Hayabusa: 0, Unit: 25_000_000,
+		NValMin: 18, NValSpan: 9, MBPs: []uint64{8, 12, 16, 10}},
 	"fine": {E: 2, LowP: 2, MedP: 4, HighP: 6, Cooldown: 2, EvictThreshold: 2, EvictInterval: 2, TP: 0, Hayabusa: 0, Unit: 1},
 }
 
@@ -977,12 +989,20 @@ func (w *world) onlineUpdates() {
 }
 
 func runRandom(p preset, seed int64, hist, blocks int) *world {
+	return runRandomMode(p, seed, hist, blocks, "random")
+}
+
+func runRandomMode(p preset, seed int64, hist, blocks int, mode string) *world {
 	rng := rand.New(rand.NewSource(seed ^ 0x5eed))
 	nVal := 4 + rng.Intn(10)
-	nEnd := 1 + rng.Intn(nVal)
 	mbps := []uint64{1, 2, 2, 3, 3, 4, 5, 0}
+	if p.NValMin > 0 {
+		nVal = p.NValMin + rng.Intn(p.NValSpan)
+		mbps = p.MBPs
+	}
+	nEnd := 1 + rng.Intn(nVal)
 	mbp := mbps[rng.Intn(len(mbps))]
-	w := newWorld(p, seed, nVal, nEnd, mbp, hist, "random")
+	w := newWorld(p, seed, nVal, nEnd, mbp, hist, mode)
 	for b := 0; b < blocks; b++ {
 		n := []int{0, 1, 1, 2, 2, 2, 3, 3, 4, 5}[w.pick(10)]
 		if b < 3 {
@@ -1000,6 +1020,56 @@ func runRandom(p preset, seed int64, hist, blocks int) *world {
 		w.nextBlock()
 		w.onlineUpdates()
 	}
+	return w
+}
+
+// drain: the terminal scenario - everybody leaves and takes everything out.  Queued validators withdraw, active ones
+// signal exit (one leaves per epoch), pending / ended delegations and exited validators withdraw as soon as the real
+// getters say there is something to withdraw.  At the end DrainCheck lets the trace specification require that nothing
+// is left in any bucket, that effectiveVET and all global counters are 0 and that the contract holds only donations:
+// "each staker can withdraw, in total, exactly what they deposited".
+func (w *world) drain() {
+	limit := int(w.p.HighP+w.p.Cooldown) + int(w.p.E)*(2*len(w.vals)+w.p.ExitMaxTry+8)
+	for i := 0; i < limit; i++ {
+		s := w.stk()
+		for _, a := range w.vals {
+			v, err := s.GetValidation(a)
+			if err != nil || v == nil {
+				continue
+			}
+			e := v.Endorser
+			switch {
+			case v.Status == validation.StatusQueued:
+				w.opWithdrawStake(a, e)
+			case v.Status == validation.StatusActive && v.ExitBlock == nil:
+				w.opSignalExit(a, e)
+			}
+			if amt, err := w.stk().GetWithdrawable(a, w.block); err == nil && amt > 0 {
+				w.opWithdrawStake(a, e)
+			}
+		}
+		for id := 1; id <= w.ndel; id++ {
+			d, v, err := w.stk().GetDelegation(big.NewInt(int64(id)))
+			if err != nil || d == nil || d.Stake == 0 {
+				continue
+			}
+			started, err1 := d.Started(v, w.block)
+			ended, err2 := d.Ended(v, w.block)
+			if err1 == nil && err2 == nil && (!started || ended) {
+				w.opWithdrawDelegation(id)
+			}
+		}
+		if eff, err := w.stk().GetEffectiveVET(); err == nil && eff == 0 {
+			break
+		}
+		w.nextBlock()
+	}
+	w.emitRes(trace.Ev{"e": "DrainCheck"}, result{ok: true})
+}
+
+func runDrain(p preset, seed int64, hist, blocks int) *world {
+	w := runRandomMode(p, seed, hist, blocks, "drain")
+	w.drain()
 	return w
 }
 
@@ -1031,6 +1101,100 @@ func runF4(p preset, seed int64, hist int) *world {
 	w.opWithdrawStake(v1, e)
 	w.opWithdrawStake(v1, e)
 	w.nextBlock()
+	return w
+}
+
+// behaviour exported by TLC from MCStakerExport.tla (model -> implementation direction)
+type behaviour struct {
+	MBP uint64           `json:"mbp"`
+	Ops []map[string]any `json:"ops"`
+}
+
+// runReplay drives the real code through the actions of one TLC-generated behaviour of Staker.tla.  Validator vN is
+// endorsed by the account named vN (End(v) = v in MCStaker).  The trace it records is validated like any other: the
+// specification, now with the constants of the export configuration, must predict every result and every getter.
+func runReplay(p preset, seed int64, hist int, b behaviour) *world {
+	w := newWorld(p, seed, 3, 3, b.MBP, hist, "replay")
+	for i, a := range w.ends {
+		w.enames[a] = fmt.Sprintf("v%d", i+1)
+	}
+	val := func(x any) thor.Address {
+		for a, n := range w.names {
+			if n == x {
+				return a
+			}
+		}
+		return thor.Address{}
+	}
+	end := func(x any) thor.Address {
+		for a, n := range w.enames {
+			if n == x && !a.IsZero() {
+				return a
+			}
+		}
+		return thor.Address{}
+	}
+	num := func(x any) uint64 { f, _ := x.(float64); return uint64(f) }
+	for _, op := range b.Ops {
+		switch op["e"] {
+		case "Block":
+			w.nextBlock()
+		case "AddValidation":
+			w.opAddValidation(val(op["a"]), end(op["end"]), uint32(num(op["p"])), num(op["s"]))
+		case "IncreaseStake":
+			w.opIncreaseStake(val(op["a"]), end(op["end"]), num(op["s"]))
+		case "DecreaseStake":
+			w.opDecreaseStake(val(op["a"]), end(op["end"]), num(op["s"]))
+		case "SignalExit":
+			w.opSignalExit(val(op["a"]), end(op["end"]))
+		case "WithdrawStake":
+			w.opWithdrawStake(val(op["a"]), end(op["end"]))
+		case "AddDelegation":
+			w.opAddDelegation(val(op["a"]), num(op["s"]), uint8(num(op["m"])))
+		case "SignalDelegationExit":
+			w.opSignalDelegationExit(int(num(op["d"])))
+		case "WithdrawDelegation":
+			w.opWithdrawDelegation(int(num(op["d"])))
+		case "SetOnline":
+			on, _ := op["on"].(bool)
+			w.opSetOnline(val(op["a"]), on)
+		case "SetMBP":
+			w.opSetMBP(num(op["m"]))
+		default:
+			fail("replay: unknown action", op["e"])
+		}
+	}
+	return w
+}
+
+// runExitMax: a dense exit schedule on the REAL code - 22 validators with the same staking period are activated by the
+// same transition and all signal exit in their first period: the exit epochs fill up one by one (SetExitBlock probes
+// forward one epoch at a time) and the 21st and 22nd request hit "max try reached" (exitMaxTry = 20).  One validator
+// leaves per epoch; the two refused ones signal again later; finally everybody has left and withdrawn (drain).
+func runExitMax(p preset, seed int64, hist int) *world {
+	const n = 22
+	w := newWorld(p, seed, n, 3, n, hist, "exitmax")
+	for i, a := range w.vals {
+		w.opAddValidation(a, w.ends[i%3], p.LowP, p.MinStake+uint64(i%3))
+	}
+	w.opAddDelegation(w.vals[0], 1, 200)
+	w.opAddDelegation(w.vals[n-1], 1, 150)
+	active := func() bool {
+		ok, err := w.stk().IsPoSActive()
+		return err == nil && ok
+	}
+	for i := 0; i < int(4*p.E+2*p.TP+8) && !active(); i++ {
+		w.nextBlock()
+	}
+	for i, a := range w.vals {
+		w.opSignalExit(a, w.ends[i%3])
+	}
+	w.opSignalExit(w.vals[n-1], w.ends[(n-1)%3]) // refused again
+	for i := 0; i < int(3*p.E); i++ {
+		w.nextBlock()
+	}
+	w.opSignalExit(w.vals[n-1], w.ends[(n-1)%3]) // slots have been freed at the front: accepted now
+	w.drain()
 	return w
 }
 
@@ -1090,7 +1254,8 @@ func main() {
 	runs := flag.Int("runs", 10, "number of random histories")
 	blocks := flag.Int("blocks", 60, "blocks per random history")
 	cfg := flag.String("cfg", "e2", "configuration preset: "+strings.Join(presetNames(), ","))
-	mode := flag.String("mode", "random", "random | f4 | edges | chain (comma list)")
+	mode := flag.String("mode", "random", "random | drain | f4 | edges | exitmax | chain | replay (comma list)")
+	in := flag.String("in", "", "replay: JSON file with the behaviours exported by TLC")
 	flag.Parse()
 	p, ok := presets[*cfg]
 	if !ok {
@@ -1108,18 +1273,42 @@ func main() {
 		hist++
 	}
 	for _, m := range strings.Split(*mode, ",") {
+		// "name:count" overrides -runs for that mode
+		if i := strings.IndexByte(m, ':'); i >= 0 {
+			n, err := strconv.Atoi(m[i+1:])
+			must(err)
+			*runs, m = n, m[:i]
+		}
 		switch m {
 		case "f4":
 			add(runF4(p, *seed*7919+1, hist))
+		case "exitmax":
+			add(runExitMax(p, *seed*7919+3, hist))
 		case "edges":
 			add(runEdges(p, *seed*7919+2, hist))
 		case "random":
 			for i := 0; i < *runs; i++ {
 				add(runRandom(p, *seed*1000003+int64(i), hist, *blocks))
 			}
+		case "replay":
+			raw, err := os.ReadFile(*in)
+			must(err)
+			var bs []behaviour
+			must(json.Unmarshal(raw, &bs))
+			for i, b := range bs {
+				add(runReplay(p, *seed*7919+100+int64(i), hist, b))
+			}
+		case "drain":
+			for i := 0; i < *runs; i++ {
+				add(runDrain(p, *seed*1000003+500+int64(i), hist, *blocks))
+			}
 		case "chain":
 			for i := 0; i < *runs; i++ {
-				add(runChain(p, *seed*1000003+int64(i), hist, *blocks))
+				add(runChain(p, *seed*1000003+int64(i), hist, *blocks, false))
+			}
+		case "chainpoa":
+			for i := 0; i < *runs; i++ {
+				add(runChain(p, *seed*1000003+700+int64(i), hist, *blocks, true))
 			}
 		default:
 			fail("unknown mode", m)
